@@ -4,7 +4,7 @@ Confirms a seeded change on a scratch worktree of /repo HEAD, then runs the
 registered check against /repo with the change applied (and undoes it)."""
 import sys, os, subprocess, json, shutil, time
 ID, dest, pat, pkg = sys.argv[1:5]
-PROP = ID[:-1] if ID.endswith("b") else ID
+PROP = ID[:3]
 patch = "/tmp/mut/out/%s/patch.diff" % ID
 if "--patch" in sys.argv:
     patch = sys.argv[sys.argv.index("--patch") + 1]
